@@ -379,7 +379,27 @@ pub fn seq_phases(prop: &str, tier: &str) -> Vec<Phase> {
             };
             let mut s = spec(prop, Alpha::Core, if thorough { 4 } else { 3 }, vec![Cfg::records(3)], o, if thorough { 1500 } else { 45 });
             s.grid_probes = true;
-            vec![Phase { name: "argument grid at every state reached by the core alphabet", spec: s }]
+            // the same probes where reads miss the cache: small caches, start states
+            // with re-appended entries and an advanced boundary (where the unchanged
+            // crate answers a read with an error — F3 — a panic is still a panic)
+            let mut r = spec(
+                prop,
+                Alpha::Core,
+                if thorough { 2 } else { 1 },
+                vec![Cfg::records(3).with_cache(Some(0), None), Cfg::records(2).with_cache(None, Some(5))],
+                Oracles { panics_only: true, ..Default::default() },
+                if thorough { 900 } else { 30 },
+            );
+            r.grid_probes = true;
+            r.roots = vec![
+                vec!["append", "append_t+2", "flush", "truncate_last", "append_t+1"],
+                vec!["append", "append", "append", "flush", "truncate_last", "truncate_last", "append_t+1"],
+                vec!["append", "append", "append", "flush", "append"],
+            ];
+            vec![
+                Phase { name: "argument grid at every state reached by the core alphabet", spec: s },
+                Phase { name: "argument grid under small caches, from start states with evicted and re-appended entries", spec: r },
+            ]
         }
         _ => vec![],
     }
